@@ -346,7 +346,7 @@ fn handle_one_request(
                     stream,
                     &request.headers,
                 ));
-                return Ok(response.keep_alive);
+                return Ok(response.keep_alive && !request.headers.is_connection_close());
             }
         }
     }
